@@ -25,7 +25,7 @@ Record sim (A : adapter) (m : dcmode) : Type := mk_sim {
       batch_proj_ok ops (batch_eval m c ops) (snd (fst (a_batch A s ops))) (snd (a_batch A s ops)) = true /\
       match batch_eval m c ops with
       | Applied c' => sim_R (fst (fst (a_batch A s ops))) c'
-      | CondFailed _ _ => fst (fst (a_batch A s ops)) = s
+      | CondFailed _ _ => sim_R (fst (fst (a_batch A s ops))) c     (* nothing the contract sees has moved *)
       end;
   sim_del : forall s k, a_del A s k = (fst (fst (a_batch A s [Del k])), snd (fst (a_batch A s [Del k])));
   sim_delcur : forall s i, a_delcur A s i = a_batch A s [item_bop i];
@@ -303,7 +303,9 @@ Proof.
     exists (length (citems ByValue c a b)). rewrite firstn_all. split; [|apply min_count_le].
     unfold with_stamp0, citems, mk_item. reflexivity.
   - intros; exact I.
-  - intros s c ops HR _. apply mem_batch_sim; assumption.
+  - intros s c ops HR _. destruct (mem_batch_sim s c ops) as [Hp Hrel]; [assumption..|]. split; [exact Hp|].
+    destruct (batch_eval ByValue c ops); [exact Hrel|].
+    replace (fst (fst (a_batch memkv s ops))) with s by (symmetry; exact Hrel). exact HR.
   - intros s k. cbn [a_del a_batch memkv]. destruct (mem_batch_run s [Del k]) as [[s' c] cf]. reflexivity.
   - intros s i. reflexivity.
   - intros; exact I.
@@ -495,7 +497,9 @@ Proof.
     unfold citems. rewrite map_length. split; [|exact Hle].
     unfold with_stamp0. rewrite firstn_map. reflexivity.
   - intros; exact I.
-  - intros s c ops HR Hok. apply tikv_batch_sim; assumption.
+  - intros s c ops HR Hok. destruct (tikv_batch_sim s c ops) as [Hp Hrel]; [assumption..|]. split; [exact Hp|].
+    destruct (batch_eval ByValue c ops); [exact Hrel|].
+    replace (fst (fst (a_batch tikv s ops))) with s by (symmetry; exact Hrel). exact HR.
   - intros s k. cbn [a_del a_batch tikv]. destruct (t_batch s [Del k]) as [[s' c] cf]. reflexivity.
   - intros s i. reflexivity.
   - intros k. repeat constructor.
@@ -822,7 +826,9 @@ Proof.
     rewrite get_map_val. destruct (get (b_map s) k) as [[v ver]|]; reflexivity.
   - intros s c a b l HR. apply b_iter_prefix. exact HR.
   - intros; exact I.
-  - intros s c ops HR Hok. apply badger_batch_sim; assumption.
+  - intros s c ops HR Hok. destruct (badger_batch_sim s c ops) as [Hp Hrel]; [assumption..|]. split; [exact Hp|].
+    destruct (batch_eval ByVersion c ops); [exact Hrel|].
+    replace (fst (fst (a_batch badger s ops))) with s by (symmetry; exact Hrel). exact HR.
   - intros s k. reflexivity.
   - intros s i. reflexivity.
   - intros k. reflexivity.
